@@ -267,3 +267,52 @@ func solveAll(obls []*Obligation, secs int) {
 	}
 	wg.Wait()
 }
+
+// crossCheck (thorough tier): every obligation that one solver proved is given to a
+// solver of a different family as well.  A second "unsat" is counted as confirmed, a
+// timeout/unknown as unconfirmed (no verdict), a "sat" is a disagreement between
+// solvers and is reported: the proof is then not trusted.
+func crossCheck(obls []*Obligation, secs int) (confirmed, unconfirmed int, disagree []*Obligation) {
+	dir, err := os.MkdirTemp("", "gowp-xc-")
+	if err != nil {
+		return
+	}
+	defer os.RemoveAll(dir)
+	var mu sync.Mutex
+	var wg sync.WaitGroup
+	sem := make(chan struct{}, runtime.NumCPU())
+	for i, o := range obls {
+		if o.Status != "unsat" || o.Solver == "syntactic" || o.Kind == "cover" {
+			continue
+		}
+		other := solvers[1] // cvc5
+		if strings.HasPrefix(o.Solver, "cvc5") {
+			other = solvers[0] // z3 5.1
+		}
+		wg.Add(1)
+		sem <- struct{}{}
+		go func(i int, o *Obligation, sp solverSpec) {
+			defer wg.Done()
+			defer func() { <-sem }()
+			file := filepath.Join(dir, fmt.Sprintf("x%05d.smt2", i))
+			if os.WriteFile(file, []byte(o.smt()), 0o644) != nil {
+				return
+			}
+			st, _, d := runSolver(context.Background(), sp, file, secs, false)
+			os.Remove(file)
+			mu.Lock()
+			defer mu.Unlock()
+			o.Secs += d
+			switch st {
+			case "unsat":
+				confirmed++
+			case "sat":
+				disagree = append(disagree, o)
+			default:
+				unconfirmed++
+			}
+		}(i, o, other)
+	}
+	wg.Wait()
+	return
+}
